@@ -36,21 +36,27 @@ WalkToml(sc, i, stop) ==      \* nearest toml from level i up to level `stop` (i
 GlobalToml(sc) ==
   IF sc.xdg THEN {31} ELSE IF sc.xdgs THEN {32} ELSE IF sc.home THEN {33} ELSE IF sc.homes THEN {34} ELSE {}
 
-RECURSIVE WalkEc(_, _)
-WalkEc(sc, i) ==              \* the closest .editorconfig wins for a key both set; `root` stops the upward search
-  IF sc.lv[i].ec # "none" THEN {20 + i}
+(* ec flavour "perfile": next to the `[*.lua]` section (mark 20 + i) a later section `[u*.lua]` (mark 70 + i): the   *)
+(* sections of an .editorconfig apply per FILE NAME, so two files of one directory can resolve differently (`alt`   *)
+(* = the target is the u-named file).                                                                                *)
+RECURSIVE WalkEcA(_, _, _)
+WalkEcA(sc, i, alt) ==        \* the closest .editorconfig wins for a key both set; `root` stops the upward search
+  IF sc.lv[i].ec # "none" THEN (IF sc.lv[i].ec = "perfile" /\ alt THEN {70 + i} ELSE {20 + i})
   ELSE IF i = 1 THEN {}
-  ELSE WalkEc(sc, i - 1)
+  ELSE WalkEcA(sc, i - 1, alt)
+WalkEc(sc, i) == WalkEcA(sc, i, FALSE)
 
-(* acceptable marks for a target whose directory is level t *)
-Resolve(sc, t) ==
+(* acceptable marks for a target whose directory is level t (alt: the second, u-named file of that directory) *)
+ResolveA(sc, t, alt) ==
   IF sc.override THEN {50}
   ELSE IF sc.config_path THEN {40}
   ELSE LET found == WalkToml(sc, t, IF sc.search_parent THEN 1 ELSE Cwd) IN
        IF found # {} THEN found
        ELSE IF sc.search_parent /\ GlobalToml(sc) # {} THEN GlobalToml(sc)
-       ELSE IF ~sc.no_ec /\ WalkEc(sc, t) # {} THEN WalkEc(sc, t)
+       ELSE IF ~sc.no_ec /\ WalkEcA(sc, t, alt) # {} THEN WalkEcA(sc, t, alt)
        ELSE {0}
+Resolve(sc, t) == ResolveA(sc, t, FALSE)
+IsAlt(tg) == "alt" \in DOMAIN tg /\ tg.alt
 
 (* the directory level whose configuration applies to a target *)
 TargetLevel(tg) == CASE tg.kind = "file" -> tg.level
@@ -77,11 +83,11 @@ ImplHistory(sc, targets, k, cache) ==   \* sequence of mark sets, one per target
   ELSE LET r == ImplLookup(sc, cache, TargetLevel(targets[k]), IF sc.search_parent THEN 1 ELSE Cwd)
            m == IF sc.override THEN {50} ELSE IF sc.config_path THEN {40}
                 ELSE IF r[1] # {} THEN r[1]
-                ELSE IF ~sc.no_ec /\ WalkEc(sc, TargetLevel(targets[k])) # {} THEN WalkEc(sc, TargetLevel(targets[k]))
+                ELSE IF ~sc.no_ec /\ WalkEcA(sc, TargetLevel(targets[k]), IsAlt(targets[k])) # {} THEN WalkEcA(sc, TargetLevel(targets[k]), IsAlt(targets[k]))
                 ELSE {0}
        IN <<m>> \o ImplHistory(sc, targets, k + 1, r[2])
 
 ImplRefines(sc, targets) ==
   LET h == ImplHistory(sc, targets, 1, EmptyCache) IN
-  \A k \in DOMAIN targets : h[k] \subseteq Resolve(sc, TargetLevel(targets[k])) /\ h[k] # {}
+  \A k \in DOMAIN targets : h[k] \subseteq ResolveA(sc, TargetLevel(targets[k]), IsAlt(targets[k])) /\ h[k] # {}
 =============================================================================
